@@ -103,7 +103,14 @@ def gen_plan(seed, tier):
   while len(ops) < n_ops:
     k = r.random()
     form = "formed" if r.random() < 0.2 else "indices"
-    if k < 0.07 and pre != "store":
+    if k < 0.05 and int_store is None and len(ops) >= 1:
+      # the caller edits its own container in place (same ndarray / list / store
+      # object, other content) and fits again: the new content must be used
+      ops.append(dict(op="mutate_pre", seed=r.randrange(10**6), how=r.choice(["rows", "all"])))
+      ops.append(dict(op="fit", idx=dict(seed=r.randrange(10**6), dtype=r.choice(INT_DTYPES),
+                                         repeats=False, order=r.random() < 0.7),
+                      form="indices", fault=None))
+    elif k < 0.07 and pre != "store":
       # replace the preprocessor by another array and refit: the new one must be used
       ops.append(dict(op="swap_pre", seed=r.randrange(10**6), kind=r.choice(["ndarray", "list"])))
       ops.append(dict(op="fit", idx=dict(seed=r.randrange(10**6), dtype=r.choice(INT_DTYPES),
@@ -330,10 +337,29 @@ def run_plan(plan):
         newpre = D.S.copy() if op["kind"] == "ndarray" else D.S.tolist()
         with world.observed():
           A.set_params(preprocessor=newpre)
+        pre = newpre          # the container the estimator now reads through
         a_defined = False
         events.append(dict(i=i, op="swap_pre", kind=op["kind"]))
         cov["preprocessor_swaps"] += 1
         shape.append("swap")
+        continue
+      if kind == "mutate_pre":
+        rsw = np_stream(op["seed"], "mutate")
+        S2 = np.array(D.S, dtype=float, copy=True)
+        rows = np.arange(len(S2)) if op["how"] == "all" else np.where(rsw.rand(len(S2)) < 0.5)[0]
+        S2[rows] = S2[rows] * rsw.uniform(0.5, 2.0, size=D.d) + rsw.randn(D.d) * (np.abs(S2).std() + 1e-300)
+        D.S = np.ascontiguousarray(S2)
+        if store is not None:
+          store.X[...] = D.S                 # the table behind the callable
+        elif isinstance(pre, np.ndarray):
+          pre[...] = D.S                     # the very array given as preprocessor
+        else:
+          for i_ in range(len(pre)):         # rows of the nested list reassigned in place
+            pre[i_] = D.S[i_].tolist()
+        a_defined = False                    # what A answers until its next fit is not asserted
+        events.append(dict(i=i, op="mutate_pre", how=op["how"]))
+        cov["preprocessor_mutated_in_place"] += 1
+        shape.append("mutate")
         continue
       ev = dict(i=i, op=kind, form=op["form"])
       if kind == "fit":
